@@ -10,7 +10,7 @@ PROPERTY = "C32"
 LEVEL = "exploration"
 META = {
     "text": "Every strictly increasing x subset (size 2-5) of a 7-value set crossed with every ordered y selection from a 5-element multiset (monotone and arbitrary, with ties) is turned into a real Characteristic, SplineCharacteristic (every scipy interp1d kind, the default kind, Pchip; with and without a fill_value tuple) and LogSplineCharacteristic (positive data) and evaluated: value at each support point equals y_i, monotone data under shape-preserving kinds stays between the neighbouring y values at 9 interior points per interval, and to_json/from_json of the object (before and after first use), the JSON round trip of the net holding it and pickle give bit-identical evaluations on the grid; the from_points/from_gradient constructors are enumerated over a small grid as well.",
-    "note": "The domain is continuous: the property is decided on the stated finite x/y alphabets and the 9-interior-point evaluation grid only. Trusted: numpy float comparison, scipy raising its documented ValueError for too few points (counted, not judged). Tolerance 1e-9 relative to max(1,|y|).",
+    "note": "The domain is continuous: the property is decided on the stated finite x/y alphabets and the 9-interior-point evaluation grid only. Trusted: numpy float comparison, scipy raising its documented ValueError for too few points (counted, not judged). Tolerance 1e-9 relative to max(1,|y|); for the logarithmic class (data over 8 decades, incl. values below 1e-4) 1e-9 relative to each value.",
     "technique": "bounded exhaustive input enumeration (full product of finite data alphabets x interpolator kinds) on the real classes with interpolation / range / serialisation-equality oracles",
     "design_ref": "DESIGN.md §3 E1, §4 C32",
 }
@@ -136,7 +136,7 @@ def run_data_case(case):
             viol("support_points", {"raised_scalar": "%s: %s" % (type(e).__name__, e)}, y, ["raised"])
         if sc is not None and not kc.same(sc, vals_sup):
             viol("support_points", {"scalar_call": sc, "vector_call": [float(v) for v in vals_sup]}, y, ["scalar_vs_vector"])
-        for clause, detail in kc.judge_values(kk, x, y, vals_sup, vals_grid, grid):
+        for clause, detail in kc.judge_values(kk, x, y, vals_sup, vals_grid, grid, relative=log):
             viol(clause, detail, y, ["monotone" if kc.monotone(y) else "arbitrary"])
         # serialisation: object level, fresh and used
         for name, js in (("json_fresh", js_fresh), ("json_used", None)):
